@@ -48,6 +48,9 @@ type icache struct {
 
 func (i *icache) set(k string, v Account) {
 	cpy := v
+	// the key may be a view into a request buffer that is reused by the
+	// next request, the map must own its keys
+	k = strings.Clone(k)
 	i.Lock()
 	i.items[k] = item{
 		exp:   time.Now().Add(i.expire),
@@ -77,7 +80,9 @@ func (i *icache) update(k string, props MutableProps) {
 		// refresh the expiration date
 		item.exp = time.Now().Add(i.expire)
 
-		i.items[k] = item
+		// assigning to an existing string key replaces the stored key
+		// with k, which may be a view into a request buffer
+		i.items[strings.Clone(k)] = item
 	}
 }
 
